@@ -248,4 +248,55 @@ def r17_6(ctx):
     return o
 
 
-RULES = [r17_1, r17_2, r17_3, r17_4, r17_5, r17_6]
+def r17_7(ctx):
+    """abstract run (W) of Point2D.__abs__ (the integrand of the signed length) on stand-in points with int, Fraction and
+    float coordinates: the result squared must be x^2 + y^2 (exactly when the norm is rational, within rounding
+    otherwise), whatever the numeric type of the description"""
+    import math
+    out = Outcome("R17.7", "abs(point) is the Euclidean norm for int, Fraction and float coordinates alike (perfect and "
+                           "non-perfect squares in numerator and denominator): descriptions of one curve in different "
+                           "numeric types give the same length", floor=6)
+    fn = ctx.fn("polygon.Point2D.__abs__")
+    cases = [(3, 4), (1, 1), (Fr(3, 2), 2), (Fr(1, 2), Fr(1, 2)), (Fr(1, 3), Fr(1, 3)), (Fr(3, 5), Fr(4, 5)), (0.5, 0.5),
+             (3.0, 4.0), (Fr(2, 7), Fr(3, 7)), (10 ** 9, 1), (Fr(1, 10 ** 6), 0)]
+
+    class Pt(StandIn):
+        def __init__(self, x, y):
+            self._x, self._y = x, y
+
+        def inner(self, o):
+            return self._x * o._x + self._y * o._y
+
+        norm2 = property(lambda self: self.inner(self))
+
+        def __getitem__(self, i):
+            return (self._x, self._y)[i]
+
+        def __iter__(self):
+            return iter((self._x, self._y))
+    ext = {"math.sqrt": math.sqrt, "math.isqrt": math.isqrt, "np.sqrt": math.sqrt, "math.hypot": math.hypot,
+           "np.hypot": math.hypot, "fractions.Fraction": Fr}
+    for x, y in cases:
+        try:
+            got = Runner(ctx, set(), None, ext=ext).call_fn(fn, [Pt(x, y)])
+        except (Undecided, Raised) as ex:
+            out.undecided(fn.qname, f"abs(({x}, {y})): {ex}", where=fn.where())
+            continue
+        except (TypeError, ValueError, ArithmeticError) as ex:
+            out.bad(fn.qname, f"abs of a point raises {type(ex).__name__}", where=fn.where(), detail=f"point ({x}, {y})")
+            continue
+        want2 = x * x + y * y
+        ok = abs(float(got) ** 2 - float(want2)) <= 1e-12 * max(1.0, float(want2))
+        if ok and isinstance(want2, (int, Fr)):
+            w = Fr(want2)
+            if math.isqrt(w.numerator) ** 2 == w.numerator and math.isqrt(w.denominator) ** 2 == w.denominator:
+                ok = got * got == want2             # a rational norm must come out exactly
+        if ok:
+            out.ok(fn.qname, f"abs(({x}, {y}))^2 = {want2}", where=fn.where())
+        else:
+            out.bad(fn.qname, "abs(point) is not the Euclidean norm", where=fn.where(),
+                    detail=f"abs(({x}, {y})) = {got!r}, its square must be {want2}")
+    return out
+
+
+RULES = [r17_1, r17_2, r17_3, r17_4, r17_5, r17_6, r17_7]
